@@ -22,6 +22,14 @@ NotImplemented""".split())
 BIGPOW = 1 << 20
 
 
+class Raises(object):
+    """Result of an operator on concrete operands that raises in Python."""
+    __slots__ = ("exc",)
+
+    def __init__(self, exc):
+        self.exc = exc
+
+
 class BoundMethod(object):
     __slots__ = ("base", "attr")
 
@@ -98,6 +106,10 @@ def binop(op, a, b):
                 return a & b
             if isinstance(op, ast.BitXor):
                 return a ^ b
+        except TypeError:
+            return Raises("TypeError")
+        except ZeroDivisionError:
+            return Raises("ZeroDivisionError")
         except Exception:
             return UNK
         return UNK
@@ -835,6 +847,8 @@ def m_hasattr(i, args, kw, st, node):
             v = i.class_attr(args[0].mod, args[0].cnode, args[1], st, None)
             if v is not None:
                 return True
+        if args[0].ident not in st.havoc:
+            return False
     return Unknown("bool")
 
 
